@@ -41,6 +41,11 @@ Inductive c16_case :=
    and optionally get_formatted() of the same ExceptionInfo object asked again after a
    further edit of the files *)
 | CaseSess (steps : list (list live_frame * live_exc * str * ei_obs * option str))
+(* a call stack without exception: the interpreter's view of the frames below a probe
+   (traceback.extract_stack(f, limit=k)), its text (format_stack; no header line), and
+   boltons' view: TracebackInfo.from_frame(f, limit=k) via to_dict() and get_formatted(),
+   Callpoint.from_frame(f).tb_frame_str(), Callpoint.from_current(level).tb_frame_str() *)
+| CaseStack (fs : list live_frame) (interp : str) (o_frames : list cp_obs) (o_fmt o_one o_cur : str)
 (* one of the three compiled patterns (0 = _frame_re, 1 = _se_frame_re, 2 = _underline_re, 3 = _repeat_re)
    applied with .match to a string: None, or the list of its groups *)
 | CaseRe (which : N) (s : str) (groups : option (list str)).
@@ -180,6 +185,31 @@ Definition sess_verdict (steps : list (list live_frame * live_exc * str * ei_obs
    (* every step that fails the Spec does so inside a recorded guard *)
    forallb (fun v => snd (fst v) || snd v) vs).
 
+(* ---- call stacks --------------------------------------------------------------------------------- *)
+(* traceback.format_stack: the entries, folded, every line terminated *)
+Definition spec_stack_lines (fs : list live_frame) : str :=
+  flat_map (fun l => l ++ NL) (fold_entries None 0 (map (std_frame P) fs)).
+Definition last_entry_text (fs : list live_frame) : str :=
+  match rev fs with
+  | l :: _ => flat_map (fun x => x ++ NL) (entry_lines (std_frame P l))
+  | [] => []
+  end.
+
+Definition stack_verdict (fs : list live_frame) (interp : str) (o_frames : list cp_obs) (o_fmt o_one o_cur : str)
+  : verdict :=
+  let cs := map cp_of_live fs in
+  let m_one := match rev cs with c :: _ => tb_frame_str P c | [] => [] end in
+  let agree :=
+    list_eqb cp_obs_eqb o_frames
+             (map (fun c => mkCpObs (cp_path c) (cp_lineno c) (cp_func c) (deferred_str P (cp_raw c))) cs) &&
+    str_eqb o_fmt (tbi_formatted P cs) && str_eqb o_one m_one && str_eqb o_cur m_one in
+  let holds :=
+    str_eqb interp (spec_stack_lines fs) &&            (* validation of the Spec against format_stack *)
+    frames_match fs o_frames &&
+    str_eqb o_fmt (L_header ++ NL ++ spec_stack_lines fs) &&
+    str_eqb o_one (last_entry_text fs) && str_eqb o_cur (last_entry_text fs) in
+  (agree, holds, false).
+
 Definition c16_verdict (c : c16_case) : verdict :=
   match c with
   | CaseRT T ms text parsed printed => rt_verdict T ms text parsed printed
@@ -187,6 +217,7 @@ Definition c16_verdict (c : c16_case) : verdict :=
       let '(mp, ms') := model_parse_print text in
       (rtb_eqb mp parsed && rstr_eqb ms' printed, true, false)
   | CaseEI fs e interp o => ei_verdict fs e interp o
+  | CaseStack fs interp o_frames o_fmt o_one o_cur => stack_verdict fs interp o_frames o_fmt o_one o_cur
   | CaseSess steps => sess_verdict steps
   | CaseRe which s groups =>
       (* agree: the scanner's matcher of the model; holds: the reference semantics of re on the
@@ -199,7 +230,8 @@ Inductive c16_expl :=
 | ExplRT (model_parsed : res tb) (model_printed : res str) (spec_text : str) (wf_T : bool) (input_ok : bool)
 | ExplEI (model : ei_obs) (spec_text : str) (spec_tb : tb)
 | ExplRe (model_groups spec_groups : option (list str))
-| ExplSess (steps : list (ei_obs * str * verdict)).
+| ExplSess (steps : list (ei_obs * str * verdict))
+| ExplStack (model_text spec_text : str).
 
 Definition c16_explain (c : c16_case) : c16_expl :=
   match c with
@@ -209,6 +241,7 @@ Definition c16_explain (c : c16_case) : c16_expl :=
   | CaseRaw text _ _ => let '(a, b) := model_parse_print text in ExplRT a b [] false true
   | CaseEI fs e _ _ => ExplEI (model_ei fs e) (std_text (std_tb P fs e)) (std_tb P fs e)
   | CaseRe which s _ => ExplRe (model_re which s) (spec_re which s)
+  | CaseStack fs _ _ _ _ _ => ExplStack (tbi_formatted P (map cp_of_live fs)) (L_header ++ NL ++ spec_stack_lines fs)
   | CaseSess steps =>
       ExplSess (map (fun st => let '(fs, e, _, _, _) := st in
                                (model_ei fs e, std_text (std_tb P fs e), sess_step_verdict st)) steps)
